@@ -348,12 +348,14 @@ class Simulator(EventProducer, SimulatorInterface, Generic[TIME]):
     def cleanup(self):
         """clean up after a replication has finished, and prepare for the
         next replication to run"""
-        if self.has_listeners():
-            self.remove_all_listeners()
         if self.__worker is not None:
             self._stop_impl()
             self.__worker.cleanup()
             self.__worker = None
+        # remove the listeners only after the run thread has come to rest, so
+        # they still receive its last notifications (STOP, END_REPLICATION)
+        if self.has_listeners():
+            self.remove_all_listeners()
         self._run_state = RunState.NOT_INITIALIZED
         self._replication_state = ReplicationState.NOT_INITIALIZED
     
